@@ -49,6 +49,12 @@ SOURCES = [
     ("d / z", ["zeros"], "eqv"), ("[v, v]", ["twins"], "eqv"), ("1.0 / 0.0", ["empty"], "eqv"), ("1.0 / -0.0", ["empty"], "eqv"), ("-1.0 / 0.0", ["empty"], "eqv"),
     ("[1, 1u, 1.0, true]", ["empty"], "eqv"), ("[1.0, true, 1u, 1]", ["empty"], "eqv"), ("[0.0, -0.0]", ["empty"], "eqv"), ("[-0.0, 0.0]", ["empty"], "eqv"),
     ("{v: 'a'}", ["twins"], "eqv"), ("type(v)", ["twins"], "eqv"), ("v == v ? string(v) : 'ne'", ["twins"], "eqv"), ("double(z) / d", ["zeros"], "eqv"),
+    ("v in [1, 2u, 3.0, true]", ["twins"], "eqv"), ("size(w)", ["sized"], "eqv"),
+    # operands that print alike (str/repr drop sub-second parts) but differ, and the same comparison with the operands swapped
+    ("duration('1s') == duration('1s')", ["empty"], "reprs"), ("duration('1500ms') == duration('1s')", ["empty"], "reprs"), ("duration('1500ms') > duration('1s')", ["empty"], "reprs"),
+    ("duration('1s') > duration('1500ms')", ["empty"], "reprs"), ("timestamp('2020-01-01T00:00:00Z') == timestamp('2020-01-01T00:00:00Z')", ["empty"], "reprs"),
+    ("timestamp('2020-01-01T00:00:00.000001Z') == timestamp('2020-01-01T00:00:00Z')", ["empty"], "reprs"), ("da == db", ["durs"], "reprs"), ("da < db", ["durs"], "reprs"),
+    ("db < da", ["durs"], "reprs"), ("ta <= tb", ["stamps"], "reprs"), ("tb <= ta", ["stamps"], "reprs"), ("ta != tb", ["stamps"], "reprs"),
 ]
 BINDINGS = {
     "empty": [{}],
@@ -59,6 +65,9 @@ BINDINGS = {
     "package": [{"p.x": ("int", 11)}, {"x": ("int", 12)}, {"p.x": ("int", 13), "x": ("int", 14)}, {}],
     "keywordish": [{"CEL": ("int", 100), "ex_1": ("int", 1)}, {"CEL": ("int", 200), "ex_1": ("int", 2)}, {}],
     "zeros": [{"d": ("double", 1.0), "z": ("double", 0.0)}, {"d": ("double", 1.0), "z": ("double", -0.0)}, {"d": ("double", -1.0), "z": ("double", 0.0)}, {"d": ("double", -1.0), "z": ("double", -0.0)}, {"d": ("double", 0.0), "z": ("double", 1.0)}, {"d": ("double", -0.0), "z": ("double", 1.0)}],
+    "sized": [{"w": ("string", "\u00e9")}, {"w": ("bytes", b"\xc3\xa9")}, {"w": ("list", (("int", 1),))}, {"w": ("map", ((("int", 1), ("int", 1)),))}, {"w": ("string", "e\u0301")}],
+    "durs": [{"da": ("dur", 1000000), "db": ("dur", 1000000)}, {"da": ("dur", 1500000), "db": ("dur", 1000000)}, {"da": ("dur", 1000000), "db": ("dur", 1000001)}, {"da": ("dur", -1), "db": ("dur", 0)}],
+    "stamps": [{"ta": ("ts", 1577836800000000), "tb": ("ts", 1577836800000000)}, {"ta": ("ts", 1577836800000001), "tb": ("ts", 1577836800000000)}, {"ta": ("ts", 1577836800000000), "tb": ("ts", 1577836800999999)}],
     "twins": [{"v": ("int", 1)}, {"v": ("uint", 1)}, {"v": ("double", 1.0)}, {"v": ("bool", True)}, {"v": ("int", 0)}, {"v": ("double", 0.0)}, {"v": ("double", -0.0)}, {"v": ("bool", False)}, {"v": ("uint", 0)}],
 }
 BAD_SOURCES = ["1 +", "[1, 2", "a..b", "?"]
@@ -139,7 +148,7 @@ class History:
         prog, ei, src, host = self.progs[pi]
         env, runner, dk = self.envs[ei]
         b = MV.cel_env(benv)
-        before = copy.deepcopy(b)
+        before = MV.cel_env(benv)  # an equal, independently built snapshot (timestamps/durations do not survive copy.deepcopy)
         out = self.raw_eval(prog, b)
         self.acc.hook("evaluate")
         self.acc.hook("bindings-snapshot")
